@@ -191,6 +191,30 @@ HeaderVersion(profile, e) ==
             V(e.cs.f = 1 /\ e.cs.i = 0 /\ e.cm.f = 1 /\ e.cm.v[1] > 3),
             V(e.cs.f = 1 /\ e.cs.i = 0 /\ e.tf.f = 1 /\ e.tf.v[1] > 3)})
 
+(* ------------------------------------------- serialising several headers one after the other *)
+(* The headers of one configuration are Python objects on a heap; serialising a header          *)
+(* (autofill_and_serialise_stream) WRITES into it: autofill_major_version replaces the AUTO      *)
+(* sentinel in the header's parse-parameters object by the (11.2.2) minimal version of the       *)
+(* stream being serialised, and leaves a version that is already there alone.  A header is       *)
+(* [e |-> abstract encoding, cell |-> the heap cell its parse parameters live in]; one           *)
+(* Serialise step per header, in the order given; the result is the major_version each           *)
+(* serialised header carries.  In the design of the encoder every yielded header owns its        *)
+(* parse parameters (cell = its own position: OwnCells), so the order does not matter; two       *)
+(* headers sharing a cell (aliasing) is the NAMED DEVIATION DeviationAliasedParseParameters,     *)
+(* under which every later header inherits the version of the first one serialised.              *)
+Auto == 0
+SerialiseStep(profile, st, h) ==
+  LET cur == st.heap[h.cell]
+      v   == IF cur = Auto THEN HeaderVersion(profile, h.e) ELSE cur
+  IN [heap |-> [st.heap EXCEPT ![h.cell] = v], out |-> Append(st.out, v)]
+SerialiseInOrder(profile, hs) ==
+  FoldLeft(LAMBDA st, h : SerialiseStep(profile, st, h),
+           [heap |-> [c \in 1..Len(hs) |-> Auto], out |-> <<>>], hs).out
+OwnCells(es)    == [t \in 1..Len(es) |-> [e |-> es[t], cell |-> t]]
+SharedCell(es)  == [t \in 1..Len(es) |-> [e |-> es[t], cell |-> 1]]
+MinimalVersions(profile, es) == [t \in 1..Len(es) |-> HeaderVersion(profile, es[t])]
+DeviationAliasedParseParameters(hs) == \E t \in 1..Len(hs) : hs[t].cell # t
+
 (* ------------------------------------------------------- what the validator's level check is *)
 (* assert_level_constraint is incremental (each value must be allowed by some column that      *)
 (* allows everything seen before); for a complete header this amounts to: one column allows    *)
